@@ -134,7 +134,7 @@ func sameRunSegment(run flows.Run, sg flows.Segment) bool {
 }
 
 var historyOpts = scen.GenOpts{
-	World: world.Opts{MaxFlows: 2, MaxNodes: 5, StableContext: true, Adversarial: true, Languages: []string{"fra"},
+	World: world.Opts{MaxFlows: 2, MaxNodes: 5, StableContext: true, Adversarial: true, WaitHeavy: true, Languages: []string{"fra"},
 		Actions: []string{"send_msg", "set_run_result", "enter_flow", "call_webhook"}, ResultNames: []string{"Answer", "Color", "answer"}},
 	Restarts: true,
 	MaxSteps: 6,
